@@ -179,7 +179,7 @@ func Insertion(g *gen.G, d, b int) (*prover.InsertionParameters, string) {
 }
 
 var DelMutations = []string{"valid", "valid", "valid", "valid", "wrongpost", "corrupt", "wrongitem", "dup-old", "dup-zero", "allpad", "mixpad", "toolarge", "stale",
-	"hash+1", "hash-other-batch", "short-ids", "short-idx", "ragged", "hash+r", "empty-leaf"}
+	"hash+1", "hash-other-batch", "short-ids", "short-idx", "ragged", "hash+r", "empty-leaf", "pad-genuine"}
 
 func Deletion(g *gen.G, d, b int) (*prover.DeletionParameters, string) {
 	tree, n := history(g, d)
@@ -214,6 +214,12 @@ func Deletion(g *gen.G, d, b int) (*prover.DeletionParameters, string) {
 			p.DeletionIndices[i] = uint32(size + uint64(g.R.Int63n(int64(size))))
 			p.IdComms[i] = *g.Field(R)
 			p.MerkleProofs[i] = garbage()
+			continue
+		}
+		if mut == "pad-genuine" && g.Chance(2, 3) {
+			p.DeletionIndices[i] = uint32(size + leaf)
+			p.IdComms[i] = *new(big.Int).Set(work.Get(leaf))
+			p.MerkleProofs[i] = bigs(work.Path(leaf))
 			continue
 		}
 		p.DeletionIndices[i] = uint32(leaf)
